@@ -3,7 +3,7 @@ CONSTANT N1s = {2, 3}
 CONSTANT N2s = {1, 2}
 CONSTANT Ks = {0, 1, 2}
 CONSTANT MaxRank = 2
-CONSTANT MaxCand = 4
+CONSTANT MaxCand = 3
 CONSTANT NCs = {1}
 CONSTANT NBs = {1}
 CONSTANT Ss = {2}
